@@ -283,7 +283,8 @@ def literal_is_its_text(ctx):
     ps = ctx.prog.fns[name]["params"]
     pid = {p.get("name"): p["id"] for p in ps}
     if "column_expr" not in pid:
-        cands = [p for p in ps if "Expr" in str(p.get("ty", ""))]
+        import norm
+        cands = [p for p, t in zip(ps, norm.param_types(ctx.prog.fns[name].get("sig"))) if t.endswith("expr::Expr")]
         if len(cands) != 1:
             ctx.violation("literal-value/anchor", ctx.where(name), "the expression parameter of get_column_expr_value was not found")
             return
